@@ -4,6 +4,7 @@ package c19
 
 import (
 	"fmt"
+	"io"
 	"math"
 	"testing"
 	"time"
@@ -102,15 +103,15 @@ func gen(t *rapid.T) Case {
 			c.Groups = append(c.Groups, 0)
 		}
 	}
-	kinds := []string{"counter", "gauge", "timer", "hvalue", "hduration", "flush", "caps"}
+	kinds := []string{"counter", "gauge", "timer", "hvalue", "hduration", "flush", "caps", "close"}
 	if c.Cached {
-		kinds = []string{"allocc", "allocg", "alloct", "alloch", "alloch", "rcount", "rgauge", "rtimer", "vbucket", "dbucket", "vbucket", "rsamples", "rsamples", "rsamples", "flush", "caps"}
+		kinds = []string{"allocc", "allocg", "alloct", "alloch", "alloch", "rcount", "rgauge", "rtimer", "vbucket", "dbucket", "vbucket", "rsamples", "rsamples", "rsamples", "flush", "caps", "close"}
 	}
 	nops := rapid.IntRange(1, 30).Draw(t, "nops")
 	for i := 0; i < nops; i++ {
 		op := Op{Kind: rapid.SampledFrom(kinds).Draw(t, "kind")}
 		switch op.Kind {
-		case "flush", "caps":
+		case "flush", "caps", "close":
 		case "rcount", "rsamples":
 			op.I = pbt.AnyInt64().Draw(t, "i")
 			op.H = rapid.IntRange(0, 7).Draw(t, "h")
@@ -233,6 +234,7 @@ func run(c Case) (pbt.Outcome, error) {
 		}
 	}
 	bucketCalls := 0
+	closedOnce := false
 
 	if !c.Cached {
 		var children []tally.StatsReporter
@@ -276,6 +278,14 @@ func run(c Case) (pbt.Outcome, error) {
 				emit(rec.Event{Kind: rec.KFlush})
 			case "caps":
 				checkCaps(m.Capabilities())
+			case "close":
+				// a scope closes a reporter that can be closed; should the multi reporter offer that,
+				// it is used - and the reporter goes on being used, as a reporter shared by a second
+				// root scope is (the recording children are not closers, so no child call is due)
+				if cl, ok := m.(io.Closer); ok {
+					_ = cl.Close()
+					closedOnce = true
+				}
 			}
 		}
 		checkCaps(m.Capabilities())
@@ -380,6 +390,11 @@ func run(c Case) (pbt.Outcome, error) {
 				emit(rec.Event{Kind: rec.KFlush})
 			case "caps":
 				checkCaps(m.Capabilities())
+			case "close":
+				if cl, ok := m.(io.Closer); ok {
+					_ = cl.Close()
+					closedOnce = true
+				}
 			}
 		}
 		checkCaps(m.Capabilities())
@@ -407,6 +422,9 @@ func run(c Case) (pbt.Outcome, error) {
 	}
 	if len(c.Groups) > 0 {
 		out.Classes = append(out.Classes, "nested-multi-reporters")
+	}
+	if closedOnce {
+		out.Classes = append(out.Classes, "multi-reporter-closed-and-used-on")
 	}
 	return out, errs.Err()
 }
